@@ -37,7 +37,10 @@ def datasets():
         X[n // 4] += 9.0
         return pd.DataFrame(X, index=pd.RangeIndex(start, start + n), columns=[f"v{j}" for j in range(p)])
 
-    return {"A": mk(12, 1, 0, 7, 1), "B": mk(16, 2, 0, 5, 2), "C": mk(9, 1, 20, 4, 3), "A2": mk(12, 1, 6, 3, 4)}
+    # A2 has EXACTLY A's index and shape but other values: anything remembered under the index / shape of an earlier input
+    # (seeded changes C08-d, C10-e: score caches keyed on X.index) is hit by a history predict(A); predict(A2).
+    # C overlaps both partially (labels 8..16); appended / disjoint batches are the subject of UpdateMerge.tla.
+    return {"A": mk(12, 1, 0, 7, 1), "B": mk(16, 2, 0, 5, 2), "C": mk(9, 1, 8, 4, 3), "A2": mk(12, 1, 0, 3, 4)}
 
 
 def combined(train, data):
